@@ -619,9 +619,23 @@ package trie
 //@ func buildTrie
 //@   trusted
 //@   ensures result1 == nil ==> result0 != nil
+// Hash: a changed root key reaches the database - the current key, or its deletion for an empty
+// trie - before the flag is cleared; a failed write leaves the flag raised.
 //@ func (*Trie).Hash
-//@   trusted
+//@   props C01 C10
+//@   arith bv
+//@   nosafe
+//@   assumecalleepre
+//@   purecallback hash
+//@   requires t != nil && t.storage != nil
+//@   modifies *
+//@   assigns rebuiltRoot, calls_PutRootKey, arg_PutRootKey_t, arg_PutRootKey_newRootKey, calls_DeleteRootKey, arg_DeleteRootKey_t
 //@   sets rebuiltRoot = result0
+//@   callsite PutRootKey@*: the_current_key_into_this_tries_storage: $0 == t.storage && $1 == t.rootKey && t.rootKey != nil && t.rootKeyIsDirty
+//@   callsite DeleteRootKey@*: only_for_an_empty_trie: $0 == t.storage && t.rootKey == nil && t.rootKeyIsDirty
+//@   ensures written_before_cleared: old(t.rootKeyIsDirty) && !t.rootKeyIsDirty ==> calls_PutRootKey + calls_DeleteRootKey == old(calls_PutRootKey) + old(calls_DeleteRootKey) + 1
+//@   ensures cleared_on_success: result1 == nil ==> !t.rootKeyIsDirty
+//@   ensures root_key_kept: t.rootKey == old(t.rootKey)
 //@ func NewStorageNodeSet
 //@   trusted
 //@ extern func github.com/NethermindEth/juno/utils.(*OrderedSet).List
@@ -642,3 +656,62 @@ package trie
 //@   ensures whole_trie_root_recomputed: result1 == nil && proof == nil ==> rebuiltRoot == *root && !result0
 //@   ensures empty_range_shows_nothing: result1 == nil && proof != nil && len(keys) == 0 ==> pathVal == nil && !hasRight && !result0
 //@   ensures single_element_value_proved: result1 == nil && proof != nil && len(keys) == 1 ==> rebuiltRoot == *root || (pathVal != nil && *values[0] == *pathVal && result0 == hasRight)
+
+// ---- the persisted root key follows the in-memory one (C01: restarts between updates) ---------------
+// A Trie object keeps its root key in memory; a Trie created later on the same prefix (the next
+// block, ContractRoot a few lines after an update, a restart) reads it from the database. Whoever
+// changes the in-memory root key therefore raises rootKeyIsDirty, and Hash writes (or deletes) the
+// stored key - the current one - before it clears the flag. The storage layer and the node readers
+// are trusted not to touch the Trie object's own fields.
+//@ func (*Storage).Put
+//@   trusted
+//@ func (*Storage).Delete
+//@   trusted
+//@ func (*Storage).PutRootKey
+//@   trusted
+//@   logged
+//@ func (*Storage).DeleteRootKey
+//@   trusted
+//@   logged
+//@ func (*Storage).SyncedStorage
+//@   trusted
+//@   ensures result != nil
+//@ func (*TrieReader).GetNodeFromKey
+//@   trusted
+//@   ensures result1 == nil ==> result0 != nil && fresh(result0)
+//@ func (*Trie).updateValueIfDirty
+//@   trusted
+//@   ensures result1 == nil ==> result0 != nil
+//@ extern func sync.(*Pool).Put
+//@ extern func github.com/NethermindEth/juno/core/felt.(*Felt).IsZero
+//@ func (*Trie).setRootKey
+//@   props C01
+//@   arith bv
+//@   requires t != nil
+//@   modifies t.TrieReader.rootKey, t.rootKeyIsDirty
+//@   ensures raised: t.rootKey == newRootKey && t.rootKeyIsDirty
+//@ func (*Trie).handleEmptyTrie
+//@   props C01
+//@   arith bv
+//@   nosafe
+//@   assumecalleepre
+//@   requires t != nil
+//@   modifies *
+//@   ensures new_root_key_marked: (t.rootKey != old(t.rootKey) || old(t.rootKeyIsDirty)) ==> t.rootKeyIsDirty
+//@ func (*Trie).insertOrUpdateValue
+//@   props C01
+//@   arith bv
+//@   nosafe
+//@   assumecalleepre
+//@   purecallback hash
+//@   requires t != nil
+//@   modifies *
+//@   ensures new_root_key_marked: (t.rootKey != old(t.rootKey) || old(t.rootKeyIsDirty)) ==> t.rootKeyIsDirty
+//@ func (*Trie).deleteLast
+//@   props C01
+//@   arith bv
+//@   nosafe
+//@   assumecalleepre
+//@   requires t != nil
+//@   modifies *
+//@   ensures new_root_key_marked: (t.rootKey != old(t.rootKey) || old(t.rootKeyIsDirty)) ==> t.rootKeyIsDirty
